@@ -46,11 +46,14 @@ class VmIo:
         for field in string.Formatter().parse(format_str):
             name = field[1]
             if name is not None and len(name) > 0 and not name.isdecimal():
+                # A variable may have the name of an internal register
+                # (result, power, name, ...); the documented registers are
+                # reserved words and cannot be variables.
+                value = self._call_stack.get_variable(name)
                 reg = Register.from_string(name)
-                if reg is not None:
-                    named[name] = self._reg.get_by_enum(reg)
-                else:
-                    named[name] = self._call_stack.get_variable(name)
+                if value is None and reg is not None:
+                    value = self._reg.get_by_enum(reg)
+                named[name] = value
         # Only the values belonging to this printf: a routine called to
         # compute one of them may itself have output pending or printed.
         num_unnamed = sum(
